@@ -68,7 +68,7 @@ type c13Entry struct {
 
 func VerifHarness_C13_rt() {
 	// ---- the group to write
-	n := verifConc(ndInt("entries", 0, 2+verifTier()))
+	n := verifConc(ndInt("entries", 0, 2))
 	maxNested := 1 + verifTier()
 	var want []c13Entry
 	g := NewRepeatingGroup(c13Group, c13Template())
